@@ -10,19 +10,26 @@
 (*   - a ray that stays clear of the box yields an empty interval (T0 > T1).   *)
 (* Grazing rays (in a face plane, touching an edge / corner / flat box only)   *)
 (* have no decided probe at the contact and are not required to be non-empty.  *)
-(* Input: IOEnv.C05_OBS (ndjson {id, arg, T0, T1, nan}); output: the rejected  *)
+(* Boxes without points (default-constructed empty, inverted in some axis):    *)
+(* the returned range_t must be empty by its own empty() (flag `empty`).       *)
+(* Input: IOEnv.C05_OBS (ndjson {id, arg, T0, T1, nan, differs, empty});       *)
+(* output: the rejected                                                        *)
 (* records as ndjson in IOEnv.OUT.                                             *)
 EXTENDS BoxAlgebra, IOUtils, Json, SequencesExt
 
 Obs    == ndJsonDeserialize(IOEnv.C05_OBS)
 KProbe == 16
 
-Accepted(o) == /\ (o.nan => Grazes(o.arg))
-               /\ (~o.nan => RayAccept(o.arg, o.T0, o.T1, KProbe))
+\* o.differs: the call that relies on the default range [0, inf) returned something else than the call that spells it out
+\* boxes without points: the real range_t must call itself empty (o.empty is range_t::empty() of the returned interval)
+Accepted(o) == IF RayBoxIsEmpty(o.arg) THEN ~o.differs /\ RayAcceptEmptyBox(o.empty)
+               ELSE /\ ~o.differs
+                    /\ (o.nan => Grazes(o.arg))
+                    /\ (~o.nan => RayAccept(o.arg, o.T0, o.T1, KProbe))
 \* first failing probe, for the report
-BadProbes(o) == {n \in Probes(o.arg, KProbe) : Decided(o.arg, n) /\ ~((o.T0 <= n /\ n <= o.T1) <=> Hit(o.arg, n))}
+BadProbes(o) == IF RayBoxIsEmpty(o.arg) THEN {} ELSE {n \in Probes(o.arg, KProbe) : Decided(o.arg, n) /\ ~((o.T0 <= n /\ n <= o.T1) <=> Hit(o.arg, n))}
 Report(o) == [id |-> o.id, cls |-> RayClass(o.arg),
-              reason |-> IF o.nan THEN "nan" ELSE IF BadProbes(o) # {} THEN "probe" ELSE "clear-miss-not-empty",
+              reason |-> IF o.differs THEN "default-range-differs" ELSE IF RayBoxIsEmpty(o.arg) THEN "box-without-points-hit" ELSE IF o.nan THEN "nan" ELSE IF BadProbes(o) # {} THEN "probe" ELSE "clear-miss-not-empty",
               probe |-> IF ~o.nan /\ BadProbes(o) # {} THEN MinOf(BadProbes(o)) ELSE 0,
               hit |-> IF ~o.nan /\ BadProbes(o) # {} THEN Hit(o.arg, MinOf(BadProbes(o))) ELSE FALSE]
 RejIdx  == {k \in DOMAIN Obs : ~Accepted(Obs[k])}
